@@ -81,12 +81,16 @@ func (l *liveChain) close() {
 
 func (l *liveChain) tip() int { return len(l.blocks) - 1 }
 
-func (l *liveChain) coinbase(height int) *wire.MsgTx {
+func (l *liveChain) coinbase(height int) *wire.MsgTx { return coinbaseFor(height, 0x42) }
+
+// coinbaseFor makes the coinbase of a block at the given height; tag tells
+// branches apart (two branches may carry equal timestamps).
+func coinbaseFor(height int, tag byte) *wire.MsgTx {
 	cb := wire.NewMsgTx(1)
 	script := make([]byte, 0, 10)
 	script = append(script, 4)
 	script = binary.LittleEndian.AppendUint32(script, uint32(height))
-	script = append(script, 1, 0x42)
+	script = append(script, 1, tag)
 	cb.AddTxIn(wire.NewTxIn(wire.NewOutPoint(&chainhash.Hash{}, wire.MaxPrevOutIndex), script, nil))
 	for k := 0; k < cbOutputs; k++ {
 		cb.AddTxOut(wire.NewTxOut(cbValue, []byte{0x51}))
@@ -107,11 +111,15 @@ func solveHeader(h *wire.BlockHeader) {
 
 // candidate makes a block on the tip with the given time and extra transactions.
 func (l *liveChain) candidate(ts int64, extra []*wire.MsgTx, solve bool) *btcutil.Block {
-	prev := l.blocks[l.tip()]
+	return blockOn(l.blocks[l.tip()], l.tip()+1, l.params.PowLimitBits, ts, 0x42, extra, solve)
+}
+
+// blockOn makes a block of the given height on prev.
+func blockOn(prev *btcutil.Block, height int, bits uint32, ts int64, tag byte, extra []*wire.MsgTx, solve bool) *btcutil.Block {
 	// without retargeting every block after the genesis block carries the proof-of-work limit
 	blk := &wire.MsgBlock{Header: wire.BlockHeader{Version: 0x20000000, PrevBlock: *prev.Hash(),
-		Bits: l.params.PowLimitBits, Timestamp: time.Unix(ts, 0)}}
-	blk.AddTransaction(l.coinbase(l.tip() + 1))
+		Bits: bits, Timestamp: time.Unix(ts, 0)}}
+	blk.AddTransaction(coinbaseFor(height, tag))
 	for _, tx := range extra {
 		blk.AddTransaction(tx)
 	}
@@ -124,7 +132,7 @@ func (l *liveChain) candidate(ts int64, extra []*wire.MsgTx, solve bool) *btcuti
 		solveHeader(&blk.Header)
 	}
 	b := btcutil.NewBlock(blk)
-	b.SetHeight(int32(l.tip() + 1))
+	b.SetHeight(int32(height))
 	return b
 }
 
@@ -237,7 +245,14 @@ func runBip68(c *vrun.Ctx) error {
 	// a history is its own path: the tree is rebuilt from the states
 	byKey := map[string]*histNode{}
 	var nodes []*histNode
-	err := model(c, "Bip68", 4, []string{"Mine"}, func(s tla.State) error {
+	var forks []*forkCase
+	err := model(c, "Bip68", 4, []string{"Mine", "MineSide"}, func(s tla.State) error {
+		if s["side"].Len() > 0 {
+			if f := forkOf(s); f != nil {
+				forks = append(forks, f)
+			}
+			return nil
+		}
 		n := nodeOf(s)
 		n.isLeaf = true
 		byKey[chainKey(n.pre, n.chain)] = n
@@ -326,7 +341,10 @@ func runBip68(c *vrun.Ctx) error {
 			}
 		}
 	}
-	c.Logf("Bip68 histories replayed: %d leaf histories, %s", len(leaves), st)
+	if err := replayForks(c, forks, st); err != nil {
+		return err
+	}
+	c.Logf("Bip68 histories replayed: %d leaf histories, %d forks, %s", len(leaves), len(forks), st)
 	ex := st.export()
 	ex["leaf-histories"] = len(leaves)
 	c.SetExtra("bip68_cases", ex)
